@@ -296,7 +296,8 @@ def _uc_unitaries(iso, n_qubits, col_index, bit_index):
 
 def _unitary(iso, basis=0):  # Lemma2 of https://arxiv.org/abs/1501.06911
     iden = np.identity(2)
-    iso_norm = np.linalg.norm(iso, axis=0)[0]
+    # hypot does not underflow when the squares of both entries are subnormal
+    iso_norm = np.hypot(np.abs(iso[0][0]), np.abs(iso[1][0]))
 
     if iso_norm != 0.0:
         psi = iso / iso_norm
